@@ -178,9 +178,9 @@ def C08(ctx):
 
 
 def folds_model(ctx):
-    model_check(ctx, "Folds", "MC_Folds.cfg", "fold / count_nodes / clear_scratch as coded: pure and scratch-empty for all 1424 DAGs (3 nodes, 3 levels, "
+    model_check(ctx, "ScratchFolds", "MC_ScratchFolds.cfg", "fold / count_nodes / clear_scratch as coded: pure and scratch-empty for all 1424 DAGs (3 nodes, 3 levels, "
                 "complement edges, don't-care nodes) x all sequences of 3 queries", workers=6, timeout=900)
-    model_check(ctx, "Folds", "MC_Folds_skip.cfg", "regression: not memoising don't-care nodes leaves scratch behind", workers=2, expect_violation=True)
+    model_check(ctx, "ScratchFolds", "MC_ScratchFolds_skip.cfg", "regression: not memoising don't-care nodes leaves scratch behind", workers=2, expect_violation=True)
 
 
 def C10(ctx):
